@@ -19,13 +19,17 @@ mkdir -p "$(dirname "$PLACE")"; cp "$DEMO" "$PLACE"
 rm -f "$PLACE"
 git apply "$SD/patch.diff" || { echo "PATCH DOES NOT APPLY"; exit 3; }
 go build ./... > /tmp/seedverify-$$-build.log 2>&1 || { echo "BUILD FAILS"; cat /tmp/seedverify-$$-build.log | tail; exit 3; }
-go test -vet=off -count=1 ./... > /tmp/seedverify-$$-suite.log 2>&1; RC_SUITE=$?
+for attempt in 1 2 3 4; do
+  go test -vet=off -count=1 ./... > /tmp/seedverify-$$-suite.log 2>&1; RC_SUITE=$?
+  # other scratch copies may be running the same fixed-port tests at the same time
+  if [ $RC_SUITE -ne 0 ] && grep -q "address already in use" /tmp/seedverify-$$-suite.log; then sleep $((RANDOM % 20 + 5)); else break; fi
+done
 cp "$DEMO" "$PLACE"
 ( eval "$CMD" ) > /tmp/seedverify-$$-with.log 2>&1; RC_WITH=$?
 rm -f "$PLACE"
-echo "demo without change rc=$RC_WITHOUT (want 0); suite with change rc=$RC_SUITE (want 0); demo with change rc=$RC_WITH (want !=0)"
 [ $RC_SUITE -ne 0 ] && grep -a -E "^(--- FAIL|FAIL|panic)" /tmp/seedverify-$$-suite.log | head
 for id in "$@"; do
   VERIF_REPO="$WT" /verif/check "$id" --tier quick > /tmp/seedverify-$$-$id.log 2>&1; rc=$?
   echo "check $id rc=$rc $(grep -a -E '^(VIOLATION|INCONCLUSIVE)' /tmp/seedverify-$$-$id.log | cut -c1-200)"
 done
+echo "SUMMARY demo without change rc=$RC_WITHOUT (want 0); suite with change rc=$RC_SUITE (want 0); demo with change rc=$RC_WITH (want !=0)"
